@@ -177,6 +177,73 @@ struct Wrapper
         ln = [default, second]
         mn = {"k": second}
 
+struct SameS
+    "members of USame: a field named like the tag that carries the struct, of every JSON kind"
+    same Plain
+    lab String
+    example default
+        same = full
+        lab = "o"
+
+struct SameM
+    samem Map(String, Int32)
+    example default
+        samem = {"a": 1}
+
+struct SameU
+    sameu nb.Funion
+    example default
+        sameu = fa
+    example typed
+        sameu = default
+
+struct SameP
+    samep String
+    example default
+        samep = "x"
+
+struct SameL
+    samel List(Plain)
+    example default
+        samel = [default, nulls]
+
+struct SameT
+    samet Res
+    example default
+        samet = fol
+
+union_closed USame
+    same SameS
+    samem SameM
+    sameu SameU
+    samep SameP
+    samel SameL
+    samet SameT
+    nsame SameS?
+    example a
+        same = default
+    example b
+        samem = default
+    example c
+        sameu = default
+    example c2
+        sameu = typed
+    example d
+        samep = default
+    example e
+        samel = default
+    example f
+        samet = default
+    example g
+        nsame = default
+
+struct SameHolder
+    one USame
+    many List(USame)
+    example default
+        one = a
+        many = [a, b, c, c2, d, e, f, g]
+
 struct Holder
     uc UC
     uo UO = v
@@ -418,6 +485,69 @@ def examples_of_api(api, pkg, specs, trace=()):
     return oc, out_v, n
 
 
+def defaults_of_api(api, pkg, specs, trace=()):
+    """Every defaulted field of every struct of an accepted spec: the unset field reads the declared default (a ready instance of the union
+    for a tag default) and the generated class accepts that value on assignment."""
+    oc = collections.Counter()
+    out_v = []
+    n = 0
+    VE = pkg.bv.ValidationError
+    for nsn, ns in api.namespaces.items():
+        structs = [d for d in ns.data_types if isinstance(d, dt.Struct) and any(f.has_default for f in d.fields)]
+        if not structs:
+            continue
+        try:
+            mod = pkg.mod(nsn)
+        except Exception:  # noqa  (reported by the examples part)
+            continue
+        for d in structs:
+            cls = getattr(mod, d.name, None)
+            if cls is None:
+                oc['default:class-name-respelled'] += 1
+                continue
+            for f in d.fields:
+                if not f.has_default:
+                    continue
+                n += 1
+                inputs = {'specs': specs, 'struct': '%s.%s' % (nsn, d.name), 'field': f.name, 'trace': list(trace)}
+                target = dt.unwrap(f.data_type)[0]
+                kind = type(target).__name__
+                try:
+                    inst = cls()
+                    if not hasattr(type(inst), f.name):
+                        oc['default:field-name-respelled'] += 1
+                        continue
+                    got = getattr(inst, f.name)
+                except Exception as e:  # noqa
+                    out_v.append(viol('default-read-raised:%s:%s' % (kind, type(e).__name__), 'reading the unset defaulted field %s.%s.%s raised %r' % (nsn, d.name, f.name, e), inputs))
+                    continue
+                if isinstance(target, dt.Union):
+                    tag = getattr(f.default, 'tag_name', None)
+                    ok = getattr(got, '_tag', None) == tag and isinstance(got, pkg.bb.Union)
+                    exp = 'the ready instance of tag %r' % tag
+                else:
+                    exp = f.default
+                    if isinstance(target, (dt.Float32, dt.Float64)):
+                        ok = isinstance(got, float) and got == float(exp)
+                    elif isinstance(target, dt.Bytes):
+                        ok = got == (exp.encode('utf-8') if isinstance(exp, str) else exp)
+                    elif isinstance(target, dt.Timestamp):
+                        ok = got == datetime.datetime.strptime(exp, target.format) if isinstance(exp, str) else got == exp
+                    else:
+                        ok = got == exp and isinstance(got, bool) == isinstance(exp, bool)
+                if not ok:
+                    out_v.append(viol('default-value:%s:any-spec' % kind, 'unset field %s.%s.%s reads %r, the declared default is %s' % (nsn, d.name, f.name, got, exp if isinstance(exp, str) else repr(exp)), inputs, repr(got)[:200], repr(exp)[:200]))
+                    continue
+                try:
+                    setattr(inst, f.name, got)
+                    oc['default:ok'] += 1
+                except VE as e:
+                    out_v.append(viol('default-refused-by-runtime:%s:any-spec' % kind, 'the default %r of %s.%s.%s (accepted by the compiler) is refused by the generated class: %s' % (got, nsn, d.name, f.name, e), inputs, repr(e)))
+                except Exception as e:  # noqa
+                    out_v.append(viol('default-assign-raised:%s:%s' % (kind, type(e).__name__), 'assigning the default of %s.%s.%s raised %r' % (nsn, d.name, f.name, e), inputs))
+    return oc, out_v, n
+
+
 def model_task(item):
     kind, payload, trace = item
     specs = payload if kind in ('text', 'matrix') else render.render(payload)
@@ -431,6 +561,9 @@ def model_task(item):
         return {'outcome': 'generation-failed', 'viol': [viol('example-generate:%s' % fail.identity, 'python_types failed on an accepted spec: %s' % fail.identity, {'specs': specs}, fail.tb)]}
     try:
         oc, v, n = examples_of_api(out.api, pkg, specs, trace)
+        oc2, v2, n2 = defaults_of_api(out.api, pkg, specs, trace)
+        oc.update(oc2)
+        v, n = v + v2, n + n2
     finally:
         pkg.close()
     return {'outcome': oc, 'viol': v, 'n': max(n, 1), 'transitions': n}
@@ -570,7 +703,7 @@ def run(tier, seed):
     from mc import textspace
     nmatrix = 0
     for label, specs_ in textspace.literal_matrix_items(tier):
-        if label.startswith(('matrix:example:', 'matrix:union-example:')):
+        if label.startswith(('matrix:example:', 'matrix:union-example:', 'matrix:default:')):
             items.append(('matrix', specs_, (label,)))
             nmatrix += 1
     r.bounds['example_literal_matrix'] = nmatrix
